@@ -33,7 +33,8 @@ def run_job(job):
         tmpd = tempfile.mkdtemp(prefix='ls_', dir=os.environ.get('TMPDIR'))
         storage = labtech.storage.LocalStorage(os.path.join(tmpd, 'st'))
     rig = VirtRig(cfg, job.get('schedule') or [], shape_seed=job.get('shape_seed', 0), beh=_beh(job.get('beh')),
-                  int_lines=job.get('int_lines'), count_lines=job.get('count_lines', False), storage=storage)
+                  int_lines=job.get('int_lines'), count_lines=job.get('count_lines', False), storage=storage,
+                  prior=job.get('prior'))
     try:
         trace = rig.run()
     finally:
